@@ -114,6 +114,7 @@ type startRec struct {
 	retAt    int
 	err      string
 	ops      []opRec
+	progDone bool  // the upstream program has run to its end (or was cut short): no further event
 	overlaps []int // earlier starts of the same key whose context was not cancelled when this one was called
 	busyOver []int // ... and whose trigger still had registered subscribers
 }
@@ -159,15 +160,30 @@ func (r *reporter) SubscriptionCountDec(c int) {
 	r.in.mu.Unlock()
 }
 func (r *reporter) TriggerCountInc(c int) {
+	g := goid()
 	r.in.mu.Lock()
 	r.trInc += c
-	// more initialised triggers reported than triggers registered: this Inc (or an
-	// earlier one) is for a trigger that had already been removed
-	if r.in.r != nil && r.trInc-r.trDec > r.in.r.VerifRegistry().Triggers {
-		r.lateInc = true
+	// markTriggerInitialized runs on the start-up goroutine that called Start: is the
+	// trigger it reports still the registered one?
+	if r.in.r != nil {
+		reg := r.in.r.VerifRegistry()
+		if st := r.in.startG[g]; st != nil {
+			found := false
+			for _, u := range reg.Updaters {
+				if u == st.up {
+					found = true
+				}
+			}
+			if !found {
+				r.lateInc = true
+			}
+		} else if r.trInc-r.trDec > reg.Triggers {
+			r.lateInc = true
+		}
 	}
 	r.in.mu.Unlock()
 }
+
 func (r *reporter) TriggerCountDec(c int) {
 	r.in.mu.Lock()
 	r.trDec += c
@@ -219,6 +235,7 @@ type inst struct {
 	aborted     bool
 	keyStarts   map[string]int
 	caller      map[int64]*startRec // goroutine -> upstream whose Complete/Error call is running on it
+	startG      map[int64]*startRec // start-up goroutine -> the Start call it made
 }
 
 func (in *inst) tickL() int { in.now++; return in.now }
@@ -436,6 +453,7 @@ func (in *inst) class() string {
 }
 
 func (in *inst) onStart(ctx *resolve.Context, h http.Header, input []byte, up resolve.SubscriptionUpdater) error {
+	g := goid()
 	in.mu.Lock()
 	n := len(in.starts) + 1
 	key := inputName(input) + "|" + h.Get("X-H")
@@ -460,6 +478,7 @@ func (in *inst) onStart(ctx *resolve.Context, h http.Header, input []byte, up re
 		}
 	}
 	in.starts = append(in.starts, st)
+	in.startG[g] = st
 	tr := in.trigForL(up, key)
 	st.trig = tr
 	tr.starts = append(tr.starts, st)
@@ -485,7 +504,11 @@ func (in *inst) onStart(ctx *resolve.Context, h http.Header, input []byte, up re
 		in.point(fmt.Sprintf("src%d:ctx-done", n))
 		in.srcCall(st, Step{Op: "Dctx"})
 	})
-	if len(prog) > 0 {
+	if len(prog) == 0 {
+		in.mu.Lock()
+		st.progDone = true
+		in.mu.Unlock()
+	} else {
 		run := func() { in.runProgram(st, prog) }
 		if in.s != nil {
 			in.s.Go(fmt.Sprintf("src%d", n), run)
@@ -503,6 +526,11 @@ func (in *inst) onStart(ctx *resolve.Context, h http.Header, input []byte, up re
 }
 
 func (in *inst) runProgram(st *startRec, prog []Step) {
+	defer func() {
+		in.mu.Lock()
+		st.progDone = true
+		in.mu.Unlock()
+	}()
 	for _, step := range prog {
 		in.point(fmt.Sprintf("src%d:%s", st.n, step.label()))
 		if st.ctx.Err() != nil || in.isAborted() {
@@ -770,7 +798,7 @@ func (w *writer) Heartbeat() error {
 // ---- building an instance and its actors
 
 func newInst(sc *Scenario, s *sched.Sched) *inst {
-	in := &inst{sc: sc, s: s, byName: map[string]*subState{}, keyStarts: map[string]int{}, caller: map[int64]*startRec{}}
+	in := &inst{sc: sc, s: s, byName: map[string]*subState{}, keyStarts: map[string]int{}, caller: map[int64]*startRec{}, startG: map[int64]*startRec{}}
 	in.rep = &reporter{in: in}
 	if sc.Hook {
 		in.ds = &hookDS{fakeDS{in}}
@@ -931,7 +959,20 @@ func (in *inst) waitAfter(s *subState) {
 		if s.completed != nil && isClosed(s.completed) {
 			return true
 		}
-		return s.spec.Sync && s.returned
+		if s.spec.Sync && s.returned {
+			return true
+		}
+		// its upstream has nothing more to say (the subscriber joined after the last event)
+		if s.trig != nil && len(s.trig.starts) > 0 {
+			silent := true
+			for _, st := range s.trig.starts {
+				if st.err == "" && !st.progDone {
+					silent = false
+				}
+			}
+			return silent
+		}
+		return false
 	})
 }
 
